@@ -62,7 +62,13 @@ func (v *vigil) BeginVigil() {
 
 func (v *vigil) CeaseVigil() {
 	atomic.AddInt64(&v.vigils, -1)
+	// Broadcast while holding the lock the waiter checks the counter under.
+	// Without it the decrement and the broadcast can both fall between a
+	// waiter's "are there active vigils?" check and its cond.Wait(); the wake-up
+	// is then lost and the waiter (Destroy, Close, graceful stop) blocks forever.
+	v.mu.Lock()
 	v.cond.Broadcast()
+	v.mu.Unlock()
 }
 
 func (v *vigil) HasActiveVigils() bool {
